@@ -24,6 +24,7 @@ type Val struct {
 	// Closure info when the value is a MakeClosure result / function constant
 	Fn interface{} // *ssa.Function
 	Bind []*Val
+	mapKey types.Type
 }
 
 func sanitize(s string) string {
